@@ -5,16 +5,16 @@ import json
 # runs are sized for ~60-90 s (quick) / 10-20 min (thorough) on 16 cores
 PLANS = {
     "C01": {"profiles": ["c01_faultfree", "c01_lossy"], "quick": 6000, "thorough": 120000},
-    "C03": {"profiles": ["c03_gc_twin"], "quick": 1000, "thorough": 40000},
+    "C03": {"profiles": ["c03_gc_twin"], "quick": 800, "thorough": 40000},
     "C04": {"profiles": ["c04_sequential"], "quick": 5000, "thorough": 100000},
-    "C05": {"profiles": ["c05_fault_sweep"], "quick": 5000, "thorough": 100000},
-    "C18": {"profiles": ["c18_yson"], "quick": 2000, "thorough": 80000},
+    "C05": {"profiles": ["c05_fault_sweep"], "quick": 3000, "thorough": 100000},
+    "C18": {"profiles": ["c18_yson"], "quick": 1200, "thorough": 80000},
     "C10": {"profiles": ["c10_compaction"], "quick": 3000, "thorough": 60000},
     "C11": {"profiles": ["c11_lifecycle"], "quick": 8000, "thorough": 200000},
-    "C19": {"profiles": ["c19_matrix"], "quick": 1600, "thorough": 3200, "enumerate": True},
+    "C19": {"profiles": ["c19_matrix"], "quick": 3200, "thorough": 6400, "enumerate": True},
     "C20": {"profiles": ["c20_change_cache", "c20_snapshot_cache"], "quick": 6000, "thorough": 120000},
     "C14": {"profiles": ["c14_undo_exact", "c14_undo_approx"], "quick": 5000, "thorough": 100000},
-    "C12": {"profiles": ["c12_presence", "c12_presenceless"], "quick": 2500, "thorough": 100000},
+    "C12": {"profiles": ["c12_presence", "c12_presenceless"], "quick": 1000, "thorough": 100000},
     "C08": {"profiles": ["c08_atomic_update"], "quick": 5000, "thorough": 100000},
     "C06": {"profiles": ["c06_clocks", "c06_clocks", "c06_gcfree"], "quick": 5000, "thorough": 100000},
     "C02": {"profiles": ["c02_snapshots", "c02_snapshots_faults"], "quick": 5000, "thorough": 100000},
@@ -45,7 +45,7 @@ def plan_for(prop, tier):
         return None
     out = {"profiles": list(p["profiles"]), "runs": p[tier], "chunk": p.get("chunk", 250)}
     out["budget_s"] = p.get("budget_" + tier, 150 if tier == "quick" else 1800)
-    out["min_budget_s"] = 40 if tier == "quick" else 120
+    out["min_budget_s"] = 20 if tier == "quick" else 120
     for k in ("gomaxprocs", "workers", "ulimit_kb"):
         if k in p:
             out[k] = p[k]
@@ -127,8 +127,6 @@ META = {
     "C10": {"level": "Sessions with forced and unforced compaction (admin path through the real cluster handler, housekeeping body), restarts, re-attachment: content before == server rebuild after; unforced compaction of an attached document must change nothing; epoch strictly grows; a stale client's sync must be refused with epoch mismatch and store nothing (also after a push-only sync), its detach succeeds, a fresh attach equals a cache-independent rebuild from storage.", "note": _common},
     "C11": {"level": "Raw protocol clients (generated Connect client, hand-built packs from real Documents) issue Activate/Attach/PushPull/Detach/Remove/Deactivate in any state for 2 clients x 2 documents; a reference state machine written from docs/design/document-client-lifecycle.md predicts accept/reject; rejected calls must not grow any log; after detach/deactivate no stored version vector may lower the minimum; removed documents answer with the removed flag and store nothing.", "note": _common + "; calls on a document key after one of its documents was removed are only checked for 'stores nothing' (the document does not specify them)"},
     "C12": {"level": "Presence-heavy sessions with snapshot pulls, re-attach, rejoin, vanish, housekeeping deactivation, on presence-enabled and presenceless documents, with late attachers that disagree with the document's setting: AllPresences() equal on all replicas and keyed by exactly the clients the server counts as attached; presenceless: no presence in any stored row, response or snapshot.", "note": _common},
-    "C19": {"profiles": ["c19_matrix"], "quick": 1600, "thorough": 3200, "enumerate": True},
-    "C20": {"profiles": ["c20_change_cache", "c20_snapshot_cache"], "quick": 6000, "thorough": 120000},
     "C14": {"level": "Local sessions of one client (the property's quantifier: no remote changes) with single-edit Updates from the content alphabet plus approximate kinds, random well-nested Undo/Redo: a content stack predicts the canonical content (text as attribute runs, trees as XML) after every Undo/Redo of an exact kind; Undo/Redo never fail; clone == root; the final synchronisation succeeds.", "note": _common + "; five undo defects of the pinned tree are listed as known; undo after synchronisation/GC is outside this check (see C15)"},
     "C19": {"level": "The five pair matrices (ranges x op1 x op2) are extracted at build time from test/complex/tree_concurrency_test.go of the CURRENT tree (data and op.run methods are upstream's, the runner is the simulator): every one of the 1592 cells x both sync orders is one simulated run with two change-fed clients and a third client fed by snapshot that edits on top of it; oracles: ToXML and Marshal equal on all three and on the server's rebuild, clone == root, no step fails. The quick tier already sweeps the whole matrix (3184 runs, ~20 s).", "note": _common + "; exhaustive over the declared matrix, exploration beyond it is C01's job", "technique": "deterministic simulation, exhaustive sweep of a finite matrix of two-client schedules"},
     "C20": {"level": "(a) the real mongo.ChangeStore is driven through the call protocol of mongo/client.go (ReplaceOrInsert+ExpandRange by writers, EnsureChanges+ChangesInRange by readers, eviction, fetch errors, changes stored by other nodes) against a ground-truth table with presence-only holes: served range == table range, the fetcher is never asked for a covered sequence number; (b) C02-style sessions with frequent rebuild steps: BuildInternalDocForServerSeq(s) at the head and at earlier points with the cache as it is == after Purge() == replicas holding the same vector, interleaved with pushes, purges, tiny caches, restarts.", "note": _common + "; the Mongo collection and the glue in mongo/client.go are a stub (a change there is not seen); pkg/cache LRU expiry is not covered"},
